@@ -138,6 +138,7 @@ class Model:
             self.defs[m.name] = self._scan_defs(m)
         self._desugar_getters()
         self._desugar_format()
+        self._desugar_printf()
         self.classes: Dict[str, Cls] = {}
         self.funcs: Dict[str, Fn] = {}
         for m in self.mods.values():
@@ -297,6 +298,77 @@ class Model:
                 ast.fix_missing_locations(m.tree)
                 changed = True
         return changed
+
+    def _desugar_printf(self) -> None:
+        """`b"#%03d%b:%b" % (m, c, p)` is the concatenation `(b"#%03d" % m) + c + b":" + p`: a %b / %s field of a bytes template is
+        its argument, a numeric field stays a one-field printf together with the literal text before it.  (str templates: %s
+        becomes str(arg).)  Rewritten at load, so that a line writer reads as a concatenation of its fields in every spelling."""
+        import re
+        spec = re.compile(rb"%(\((\w+)\))?([#0\- +]*)(\d+|\*)?(\.(\d+|\*))?[hlL]?([diouxXeEfFgGcrsab%])")
+
+        def split(tpl, right, at):
+            is_b = isinstance(tpl, bytes)
+            raw = tpl if is_b else tpl.encode("utf8", "surrogatepass")
+            args = list(right.elts) if isinstance(right, ast.Tuple) else [right]
+            if isinstance(right, (ast.Dict, ast.Name)) and not isinstance(right, ast.Tuple):
+                # a name may be a tuple or a mapping: only a single conversion is then unambiguous... left alone
+                if isinstance(right, ast.Dict) or len(spec.findall(raw.replace(b"%%", b""))) != 1:
+                    return None
+            if any(isinstance(a, ast.Starred) for a in args):
+                return None
+            parts: List[ast.AST] = []
+            lit = b""
+            pos = 0
+            k = 0
+            mk = (lambda b_: ast.Constant(value=b_ if is_b else b_.decode("utf8", "surrogatepass")))
+            for m_ in spec.finditer(raw):
+                lit += raw[pos:m_.start()]
+                pos = m_.end()
+                conv = m_.group(7)
+                if conv == b"%":
+                    lit += b"%"
+                    continue
+                if m_.group(1) or m_.group(4) == b"*" or m_.group(6) == b"*" or k >= len(args):
+                    return None
+                a = args[k]
+                k += 1
+                plain = not m_.group(3) and not m_.group(4) and not m_.group(5)
+                if conv in (b"b", b"s") and plain and is_b:
+                    if lit:
+                        parts.append(mk(lit))
+                        lit = b""
+                    parts.append(copy_.deepcopy(a))
+                elif conv == b"s" and plain and not is_b:
+                    if lit:
+                        parts.append(mk(lit))
+                        lit = b""
+                    parts.append(ast.Call(func=ast.Name(id="str", ctx=ast.Load()), args=[copy_.deepcopy(a)], keywords=[]))
+                else:
+                    one = lit.replace(b"%", b"%%") + m_.group(0)
+                    parts.append(ast.BinOp(left=mk(one), op=ast.Mod(), right=copy_.deepcopy(a)))
+                    lit = b""
+            lit += raw[pos:]
+            if lit:
+                parts.append(mk(lit))
+            if k != len(args) or len(parts) < 2:
+                return None
+            e = parts[0]
+            for p_ in parts[1:]:
+                e = ast.BinOp(left=e, op=ast.Add(), right=p_)
+            return ast.fix_missing_locations(ast.copy_location(e, at))
+
+        class T(ast.NodeTransformer):
+            def visit_BinOp(self, n):
+                n = self.generic_visit(n)
+                if isinstance(n.op, ast.Mod) and isinstance(n.left, ast.Constant) and isinstance(n.left.value, (bytes, str)) and \
+                        not isinstance(n.left.value, bool):
+                    r = split(n.left.value, n.right, n)
+                    if r is not None:
+                        return r
+                return n
+        for m in self.mods.values():
+            if "%" in m.src:
+                m.tree = T().visit(m.tree)
 
     def _desugar_format(self) -> None:
         """`"a{}b{}".format(x, y)` (also `{0}`, `{name}`, conversions and plain format specs; also through a local bound once to the
